@@ -1,11 +1,20 @@
 """C08 - no privilege escalation through power-level events: whenever the real Allowed() accepts a
 power-levels event, NoEsc (written from the property statement) holds - on every 0/1/2-key variation of the
 Auth_gen.tla pl families (spec -> code) and on recorded random edits (code -> spec, Auth_trace.tla).
-TLC also checks the lemma AcceptedImpliesNoEsc on the specification's own rules."""
+TLC also checks the lemma AcceptedImpliesNoEsc on the specification's own rules.
+
+Thorough tier, supplementary (never a verdict): the same lemma for ALL integer levels - spec/PLLemma.tla restates the
+rule and NoEsc over arbitrary integers, Apalache discharges "accepted => no escalation", "verdicts depend only on the
+order of the integers involved" (which makes the five ranks exact) and refutes eight planted weakenings;
+spec/PLLemma_bridge.tla (TLC) ties the integer operators to Auth.tla's on every power-levels scenario."""
 from vlib import auth
+from checks import c08_lemma
 
 
 def run(ctx):
     ctx.repro_attempts = 6   # verdicts that depend on map iteration order are retried in fresh processes
     auth.run_families(ctx, "c08", auth.FAMILIES_PL)
     auth.record_and_validate(ctx, 16000 if ctx.tier == "quick" else 60000)
+    if ctx.tier == "thorough":
+        lemma = c08_lemma.run_lemma(ctx)   # supplementary: never changes the exit code
+        ctx.notes["lemma_unbounded"] = {k: lemma[k] for k in ("obligations", "discharged", "seconds", "statement") if k in lemma}
